@@ -20,6 +20,8 @@ KINDS = ["continental plate", "oceanic plate", "mantle layer", "plume", "subduct
 def correspondence(seed, tier):
     n = budget(tier, 25, 300)
     rs = [corr.run_corr(seed * 1000 + 150 + k, "C15_%d" % k, n, 25, {"with_random": True, "with_lines": False}) for k in range(budget(tier, 1, 3))]
+    # slabs and faults: the grains of the two neighbouring sections are drawn separately and blended (slerp) by the section fraction
+    rs += [corr.run_corr(seed * 1000 + 157 + k, "C15_lines_%d" % k, n, 25, {"with_random": True, "with_lines": True, "allow": ["subducting plate", "fault"]}) for k in range(budget(tier, 1, 3))]
     res = summarize_corr(rs)
     res["summary"]["random_models_in_worlds"] = sum(v for k, v in res["summary"]["input_distribution"].items() if "random" in k)
     return res
@@ -31,9 +33,14 @@ def rand_world(rng, kind, spherical=False):
     sizes = [rng.choice([-1, 0.5, 0.25, 2.0]) for _ in comps]
     norm = [rng.random() < 0.5 for _ in comps]
     name = rng.choice(["random uniform distribution", "random uniform distribution deflected"]) if kind != "plume" else "random uniform distribution deflected"
+    if kind in ("subducting plate", "fault") and rng.random() < 0.5:
+        name = "random uniform distribution deflected"
     gm = {"model": name, "compositions": comps, "grain sizes": sizes, "normalize grain sizes": norm}
     if name.endswith("deflected"):
-        gm["deflections"] = [rng.choice([0, 0.25, 0.5, 1]) for _ in comps]
+        gm["deflections"] = [rng.choice([0, 0.25, 0.5, 1, 1e-3, 1e-5]) for _ in comps]
+        if kind in ("subducting plate", "fault") and rng.random() < 0.6:
+            # slabs and faults blend the draws of two sections: with a small deflection the two orientations are nearly parallel (the blend must still be a rotation)
+            gm["deflections"] = [rng.choice([1e-3, 3e-4, 1e-5, 1e-2]) for _ in comps]
         if rng.random() < 0.5:
             gm["basis rotation matrices"] = [[[1, 0, 0], [0, 1, 0], [0, 0, 1]] if rng.random() < 0.5 else [[0, -1, 0], [1, 0, 0], [0, 0, 1]] for _ in comps]
         else:
@@ -88,7 +95,7 @@ def oracle(seed, tier):
     wdir = proto.workdir("C15_oracle")
     viol, cases, nontriv, samples = [], 0, 0, []
     dist = {}
-    nw = budget(tier, 18, 180)
+    nw = budget(tier, 36, 240)
     for wi in range(nw):
         kind = KINDS[wi % len(KINDS)]
         w, cfg = rand_world(rng, kind)
